@@ -141,7 +141,8 @@ def guarded(inner):
 # configuration
 # ----------------------------------------------------------------------------------------------------
 def cfg_keys(cfg):
-    nkeys = ("kind",) if cfg.get("nkeys", "kind") == "kind" else ()
+    nk = cfg.get("nkeys", "kind")
+    nkeys = ("kind",) if nk == "kind" else (("kind", "label") if nk == "kind+label" else ())
     if cfg["view"] == "bip":
         ekeys = ("role", "stoich")
     else:
@@ -162,7 +163,7 @@ def cfg_tag(cfg):
         cfg["view"],
         "" if cfg.get("stoich", True) else "-nostoich",
         "-int" if cfg.get("int_ids") and cfg["view"] == "bip" else "",
-        "-nokind" if cfg.get("nkeys", "kind") != "kind" else "",
+        "-nokind" if cfg.get("nkeys", "kind") == "none" else ("-labelled" if cfg.get("nkeys") == "kind+label" else ""),
         "-rich" if cfg.get("ekeys") == "rich" and cfg["view"] == "sp" else "",
     )
 
@@ -373,6 +374,8 @@ def _body_random(case, rec, ctx):
     sp2 = R.species_of(erx)
     allsp = species + [s for s in sp2 if s not in species]
     mapping = dict(zip(allsp, names))
+    if cfg.get("nkeys") == "kind+label":
+        mapping = {x: x for x in allsp}  # names are labels here: keep them, vary reaction order and ids only
     if len(mapping) != len(allsp) or len(set(mapping.values())) != len(allsp):
         raise AssertionError("generator bug: renaming is not a bijection")
     vrx = R.reorder(R.rename(erx, mapping), case["order"])
@@ -758,11 +761,20 @@ def edited_cases(draw, tier=None):
         st.tuples(st.just("add"), rxn).map(list),
         st.tuples(st.just("rm"), st.integers(0, 5)).map(list),
     )
-    return {"rx": rx, "cfg": draw(_cfg_strategy()), "ops": draw(st.lists(op, min_size=1, max_size=5)), "phase": draw(st.integers(0, 1))}
+    return {"rx": rx, "cfg": draw(_cfg_strategy_labelled()), "ops": draw(st.lists(op, min_size=1, max_size=5)), "phase": draw(st.integers(0, 1))}
+
+
+# node labels (species names, rule labels) as part of the structure: a documented choice of node_attr_keys.  Species
+# renaming is then NOT a representation change (names are labels); reaction order and reaction ids still are.
+LABELLED_CFGS = [{"view": "bip", "stoich": True, "nkeys": "kind+label"}, {"view": "sp", "nkeys": "kind+label"}]
 
 
 def _cfg_strategy():
     return st.sampled_from(ALL_CFGS)
+
+
+def _cfg_strategy_labelled():
+    return st.sampled_from(ALL_CFGS + LABELLED_CFGS + LABELLED_CFGS)
 
 
 @st.composite
@@ -775,7 +787,7 @@ def random_cases(draw, tier):
         )
     )
     rx = net["rx"]
-    cfg = draw(_cfg_strategy())
+    cfg = draw(_cfg_strategy_labelled())
     names = draw(st.permutations(R.NAME_POOL))[:8]
     order = draw(st.lists(st.integers(0, 5), min_size=6, max_size=6))
     ids = draw(st.one_of(st.none(), st.permutations(R.ID_POOL).map(lambda p: list(p)[:6])))
